@@ -29,6 +29,7 @@ void gen_writer_cfg(Plan &p, Rng &r, bool allow_pool, bool allow_wfrag, bool all
 	p.seti("pool", allow_pool && r.chance(1, 2) ? (long long)r.below(5) : -1);
 	p.seti("prefix", allow_prefix && r.chance(3, 10) ? 1 + (long long)r.below(700) : 0);
 	p.seti("prefseed", r.below(1000));
+	p.seti("prefmode", r.chance(1, 2) ? 0 : 1 + r.below(2));
 	if (allow_wfrag && r.chance(1, 2)) {
 		char t[64]; snprintf(t, sizeof t, "p:%d:%d:%d", (int)r.below(500), (int)r.below(300), (int)r.below(100000));
 		p.set("wfrag", t);
@@ -282,7 +283,22 @@ bool tablelib_write(const Plan &p, RunResult &res, const std::string &path, Tabl
 	if (prefix || p.geti("initfd", 0)) {
 		int fd = open(path.c_str(), O_WRONLY | O_CREAT | O_TRUNC, 0644);
 		if (fd < 0) { res.fail("INFRA", "open", "cannot create scratch file"); return false; }
-		if (prefix && write(fd, pre.data(), pre.size()) != (ssize_t)pre.size()) { res.fail("INFRA", "write", "prefix"); return false; }
+		// how the bytes before the table got there: 0 written (offset == size); 1 reserved by lseek in an empty file
+		// (offset > size, the hole reads as zeros); 2 the file is longer than the offset (descriptor positioned before EOF)
+		int prefmode = (int)p.geti("prefmode", 0);
+		if (prefix && prefmode == 1) {
+			if (lseek(fd, (off_t)prefix, SEEK_SET) != (off_t)prefix) { res.fail("INFRA", "lseek", "prefix"); return false; }
+			pre.assign(prefix, '\0');
+			if (prefix_out) *prefix_out = pre;
+			res.probes["prefix-reserved-by-lseek"]++;
+		} else if (prefix) {
+			if (write(fd, pre.data(), pre.size()) != (ssize_t)pre.size()) { res.fail("INFRA", "write", "prefix"); return false; }
+			if (prefmode == 2) {
+				Bytes tail(1 + (size_t)p.geti("prefseed", 0) % 300, '\xEE');
+				if (write(fd, tail.data(), tail.size()) != (ssize_t)tail.size() || lseek(fd, (off_t)prefix, SEEK_SET) != (off_t)prefix) { res.fail("INFRA", "write", "tail"); return false; }
+				res.probes["prefix-in-longer-file"]++;
+			}
+		}
 		w = mtbl_writer_init_fd(fd, wo);
 		close(fd);
 	} else w = mtbl_writer_init(path.c_str(), wo);
